@@ -14,7 +14,12 @@
 (* method-not-found, exit on context cancellation (session Close).  The       *)
 (* environment fixes the peer's outcome script, the configured threshold,     *)
 (* the instant at which the owner closes the session and for how long that   *)
-(* Close has to wait for a running request handler, the instant at which the  *)
+(* Close has to wait for a running request handler, for how long the          *)
+(* session's own transport holds a ping before it lets it out (a write that   *)
+(* stalls and cannot be interrupted: longer than the ping timeout, or longer  *)
+(* than one or more whole ticker periods), how the session was established    *)
+(* (legacy initialize / initialize after a rejected server/discover / a       *)
+(* protocol version without ping) on which side, the instant at which the     *)
 (* peer completes the protocol handshake (keep-alive is started by Connect,   *)
 (* before any handshake) and the fate of the context that was given to        *)
 (* Connect once Connect has returned.  Time is explicit (`now` jumps to the   *)
@@ -28,14 +33,23 @@ EXTENDS Integers, Sequences, FiniteSets, TLC
 \*   "a" answer within the ping timeout      "t" not answer within the timeout
 \*   "m" reply "method not found"            "c" connection / delivery error
 \*   "u" still unresolved when the owner closed the session (not a verdict on the peer)
+\*   "l" late: the session's transport held the ping for p.h > PingTimeout before it went out
+\*       (a stalled write), then the peer answered at once: the answer came after the ping's
+\*       deadline, so the ping was missed.  p.at is the instant the session handed the ping to
+\*       its transport; p.h = 0 for every ping the transport did not hold.
 Outcomes == {"a", "t", "m", "c"}
-Failures == {"t", "c"}
+Failures == {"t", "c", "l"}
 
 Norm(T) == IF T < 1 THEN 1 ELSE T            \* a threshold below 1 means 1
 PingTimeout(I) == I \div 2
 
 MaxOf(S) == CHOOSE x \in S : \A y \in S : y <= x
 MinOf(S) == CHOOSE x \in S : \A y \in S : x <= y
+Max2(a, b) == IF a >= b THEN a ELSE b
+RECURSIVE SeqSum(_)
+SeqSum(s) == IF s = <<>> THEN 0 ELSE Head(s) + SeqSum(Tail(s))
+\* for how long a ping can be outstanding: its timeout, or for as long as the transport holds it
+Span(p, I) == Max2(PingTimeout(I), p.h)
 
 \* pings k-n+1 .. k all failed
 Run(ps, k, n) == k >= n /\ \A i \in (k - n + 1)..k : ps[i].o \in Failures
@@ -52,7 +66,9 @@ LastOK(ps, start) == LET S == {i \in 1..Len(ps) : ps[i].o \notin Failures}
 \* o.closed >= 0: the session terminated at that time without its owner closing it.
 
 \* "never live ones": a closure is justified only by Norm(T) consecutive failed pings
-\* immediately before it, and never after the peer declared ping unsupported.
+\* immediately before it, and never after the peer declared ping unsupported.  o.pings are
+\* the pings that were really put to the peer (handed to the transport): an attempt the
+\* session itself refuses (o.attempts has it, o.pings has not) is not a miss of the peer's.
 Accuracy(o) ==
   o.closed >= 0 =>
     LET P == Before(o.pings, o.closed)  n == Norm(o.T)
@@ -64,31 +80,51 @@ Accuracy(o) ==
 \* and it can only be closed "within that many intervals plus one ping timeout" of that
 \* instant if it is being pinged.  For as long as keep-alive is in force (the peer has not
 \* declared ping unsupported, the session has neither been closed by keep-alive nor by its
-\* owner) ping attempts are therefore at most one interval apart.  Every observation ends
-\* with a closure or the owner's Close, so "no ping by then" is an observed fact.
+\* owner) ping attempts are therefore at most one interval apart - or, where the transport
+\* held a ping for longer than that, the next attempt follows as soon as it let go.  Every
+\* observation ends with a closure or the owner's Close, so "no ping by then" is an observed
+\* fact.  This is a statement about sessions whose protocol version has ping (o.pingable:
+\* the version that was negotiated, however the session came to it); where ping does not
+\* exist keep-alive is not in force.
+HoldAt(o, t) == LET S == {j \in 1..Len(o.pings) : o.pings[j].at = t}
+                IN IF S = {} THEN 0 ELSE MaxOf({o.pings[j].h : j \in S})
 KAEnds(o) == {o.pings[j].at : j \in {i \in 1..Len(o.pings) : o.pings[i].o = "m"}}
              \cup {t \in {o.closed, o.userClose} : t >= 0}
 Sustained(o) ==
-  KAEnds(o) # {} =>
+  (o.pingable /\ KAEnds(o) # {}) =>
     LET e == MinOf(KAEnds(o))
         pts == <<o.start>> \o SelectSeq(o.attempts, LAMBDA t : t < e) \o <<e>>
-    IN \A i \in 1..(Len(pts) - 1) : pts[i + 1] - pts[i] <= o.I
+    IN \A i \in 1..(Len(pts) - 1) : \/ pts[i + 1] - pts[i] <= o.I
+                                     \/ pts[i + 1] - pts[i] <= HoldAt(o, pts[i])
 
 \* "closed after exactly the configured number": as soon as Norm(T) consecutive pings
 \* have failed the session is closed, and no further ping is attempted; and the peer is
 \* pinged for as long as keep-alive is in force (a detector that stops looking never
 \* sees the failures).
+\* A ping that was still outstanding when the owner closed the session (timing out, or held by
+\* the transport) had not failed by then: the session was closed by its owner first.
+Unsettled(o, p) == /\ o.userClose >= 0 /\ p.o \in {"t", "l"}
+                   /\ p.at <= o.userClose /\ p.at + Span(p, o.I) > o.userClose
 Completeness(o) ==
-  LET n == Norm(o.T)  H == Hits(o.pings, n)
+  LET n == Norm(o.T)  H == Hits(SelectSeq(o.pings, LAMBDA p : ~Unsettled(o, p)), n)
   IN /\ H # {} => /\ o.closed >= 0
                   /\ Len(Before(o.pings, o.closed)) = MinOf(H)
      /\ Sustained(o)
 
-\* "within that many intervals plus one ping timeout" of the peer going silent
+\* "within that many intervals plus one ping timeout" of the peer going silent.  An interval
+\* and a ping timeout are what a ping is allotted when it is followed by another and when it
+\* is the last; time for which the session's own transport held a ping beyond that (which
+\* nothing at the session's level can cut short) is not the detector's.
+LastOKIdx(ps) == LET S == {i \in 1..Len(ps) : ps[i].o \notin Failures} IN IF S = {} THEN 0 ELSE MaxOf(S)
+Excess(ps, I) ==
+  LET m == LastOKIdx(ps)  n == Len(ps)
+  IN SeqSum([i \in 1..(n - m) |->
+        IF m + i < n THEN Max2(0, ps[m + i].h - I) ELSE Max2(0, ps[m + i].h - PingTimeout(I))])
 Timing(o) ==
   o.closed >= 0 =>
     LET P == Before(o.pings, o.closed)  n == Norm(o.T)
-    IN o.closed <= LastOK(P, o.start) + n * o.I + PingTimeout(o.I)
+        by == LastOK(P, o.start) + n * o.I + PingTimeout(o.I)
+    IN o.closed <= by \/ o.closed <= by + Excess(P, o.I)
 
 \* keep-alive ends silently on "method not found" (no further ping, session stays
 \* open) and when the owner closes the session (no ping afterwards)
@@ -103,7 +139,7 @@ SilentStop(o) ==
 
 \* no ping can be outstanding when the owner starts closing
 Quiet(o) == \A j \in 1..Len(o.pings) :
-               o.pings[j].at + PingTimeout(o.I) <= o.userClose \/ o.pings[j].at > o.userClose
+               o.pings[j].at + Span(o.pings[j], o.I) <= o.userClose \/ o.pings[j].at > o.userClose
 
 \* nothing is left behind: once the session has been closed (by keep-alive or by its
 \* owner) and everything runnable has run, the keep-alive loop is gone (o.kaAlive is the
@@ -124,7 +160,7 @@ Holds(o) == Accuracy(o) /\ Completeness(o) /\ Timing(o) /\ SilentStop(o) /\ NoLe
 -----------------------------------------------------------------------------
 (* Part 2: the ticker loop                                                    *)
 
-CONSTANTS Interval,      \* ticker period in clock units, a multiple of 8
+CONSTANTS Interval,      \* ticker period in clock units, a multiple of 16
           MaxLen,        \* longest outcome script
           Thresholds,    \* configured KeepAliveFailureThreshold values
           AnswerDelays,  \* how long an answering peer may take, all < PingTimeout(Interval)
@@ -134,16 +170,26 @@ CONSTANTS Interval,      \* ticker period in clock units, a multiple of 8
           CtxSlots,      \* fate of the context given to Connect: -1 kept alive, k >= 0 cancelled after the
                          \* k-th tick (0: right after Connect returned, the usual `defer cancel()`)
           EnvMaxLen,     \* longest outcome script combined with a non-default handshake / context slot
-          EnvProduct     \* TRUE: late handshake and cancelled Connect context also in combination
+          EnvProduct,    \* TRUE: the environment dimensions (late handshake, cancelled Connect context, held
+                         \* pings, way of establishing the session) also in combination with one another (see Init)
+          StallKinds,    \* for how long the transport may hold a ping, relative to the ticker period:
+                         \* "l0" past the ping's deadline but not past the next tick, "l1" / "l2" past one / two ticks
+          MaxStalls,     \* how many pings of a script may be held
+          StallMaxLen,   \* longest outcome script with a held ping
+          EstModes,      \* how the session was established (see Est below)
+          EstMaxLen      \* longest outcome script combined with a non-default way of establishing the session
 
-ASSUME Interval % 8 = 0 /\ \A d \in AnswerDelays : d >= 0 /\ d < PingTimeout(Interval)
+ASSUME Interval % 16 = 0 /\ \A d \in AnswerDelays : d >= 0 /\ d < PingTimeout(Interval) /\ d % (Interval \div 8) = 0
 ASSUME 0 \in HsSlots /\ -1 \in CtxSlots /\ EnvProduct \in BOOLEAN
+ASSUME StallKinds \subseteq {"l0", "l1", "l2"} /\ MaxStalls \in 0..2
+ASSUME "init" \in EstModes /\ EstModes \subseteq {"init", "fallback", "modern"}
 
 VARIABLES
   script,     \* Seq(Outcomes): what the peer does with ping 1, 2, ...
   thr0,       \* the configured threshold (before normalisation)
   endMode,    \* "idle": the owner closes between two pings; "inflight": while a ping is outstanding;
-              \* "drain": between two pings while a request handler runs for `drain` more intervals
+              \* "drain": between two pings while a request handler runs for `drain` more intervals;
+              \* "held": while the transport holds the script's last ping and a tick is waiting
   drain,      \* intervals the owner's Close waits for the handler (0 unless endMode = "drain")
   drainedAt,  \* when the handler returned and the owner's Close completed (-1: not yet)
   now,        \* clock
@@ -159,16 +205,63 @@ VARIABLES
   closedAt,   \* when keep-alive closed the session (-1: it did not)
   userAt,     \* when the owner closed the session (-1: not yet)
   hs,         \* the handshake slot of this run (\in HsSlots)
-  cc          \* the Connect-context slot of this run (\in CtxSlots)
+  cc,         \* the Connect-context slot of this run (\in CtxSlots)
+  est,        \* how the session was established (\in EstModes)
+  pendTick,   \* the ticker has fired while the loop was not receiving: one tick is waiting (more are dropped)
+  slots       \* the ticks the script takes (constant during a run: Len(script) + Shift(script))
 
-vars == <<script, thr0, endMode, drain, drainedAt, now, pc, tickerOn, nextTick, ctxDone, cf, k, pend, resolveAt, hist, closedAt, userAt, hs, cc>>
+vars == <<script, thr0, endMode, drain, drainedAt, now, pc, tickerOn, nextTick, ctxDone, cf, k, pend, resolveAt, hist, closedAt, userAt, hs, cc, est, pendTick, slots>>
 
+\* Held pings.  A write of the session's transport can stall (the peer does not drain its
+\* input for a while) and the ping's context cannot interrupt it: session.Ping then returns
+\* only when the transport lets go, however long after the ping's deadline that is.  What
+\* matters is the length of the hold relative to the ticker period: the ticker keeps firing
+\* while the loop is inside Ping, keeps ONE tick for it (with the time at which it fired) and
+\* drops the rest.  Held pings go out in the end and are answered at once - too late.
+\*   "l0"  9/16 of an interval: past the deadline, the next tick finds the loop receiving
+\*   "l1"  1 + 1/16 intervals: one tick is waiting when Ping returns; the loop pings again at once
+\*   "l2"  2 + 1/16 intervals: one tick is waiting, one was dropped
+\* (the sixteenths keep every instant of the loop apart from the owner's closing instants)
+Alphabet == Outcomes \cup StallKinds
+OverrunKinds == {"l1", "l2"} \cap StallKinds
+StallTicks(x) == IF x = "l1" THEN 1 ELSE IF x = "l2" THEN 2 ELSE 0
+HoldOf(x) == IF x = "l0" THEN (9 * Interval) \div 16
+             ELSE IF x \in {"l1", "l2"} THEN StallTicks(x) * Interval + Interval \div 16 ELSE 0
+ObsOutcome(x) == IF x \in {"l0", "l1", "l2"} THEN "l" ELSE x
+NStalls(s) == Cardinality({i \in 1..Len(s) : s[i] \in StallKinds})
+\* A ping that was held past a tick is followed by a scripted ping (the one the loop sends at
+\* once for the tick that was waiting) - or it is the script's last, held past two ticks, and
+\* the owner closes the session while it is held and one tick is waiting (endMode "held"):
+\* then the loop must not ping again when the transport lets go.
+EndsHeld(s) == s # <<>> /\ s[Len(s)] = "l2"
 Scripts == UNION {[1..n -> Outcomes] : n \in 0..MaxLen}
+           \cup {s \in UNION {[1..n -> Alphabet] : n \in 1..StallMaxLen} :
+                   NStalls(s) > 0 /\ NStalls(s) <= MaxStalls /\ (s[Len(s)] \notin OverrunKinds \/ EndsHeld(s))}
+\* the ticks that a held ping and the ping after it share
+Count(s, x) == Cardinality({i \in 1..Len(s) : s[i] = x})
+Shift(s) == (StallTicks("l1") - 1) * Count(s, "l1") + (StallTicks("l2") - 1) * Count(s, "l2")
+
+\* How the session was established, and by which side (the side that pings):
+\*   "init"      by the legacy initialize handshake: a ServerSession whose peer sends initialize
+\*               (when: hs), a ClientSession that asked for a legacy protocol version, or the
+\*               loop on its own (no session at all)
+\*   "fallback"  a ClientSession that asked for the latest protocol version, had its
+\*               server/discover probe rejected and fell back to initialize: a legacy session
+\*   "modern"    a ClientSession whose server/discover probe succeeded: a protocol version
+\*               that has no ping; keep-alive is not started
+\* Only the last changes what the loop does.  Which sides a case exists on is SidesOf.
+HasPing == est # "modern"
+SidesOf == IF hs # 0 THEN {"server"}
+           ELSE IF est # "init" THEN {"client"}
+           ELSE IF cc >= 0 \/ endMode = "drain" THEN {"server", "client"}
+           ELSE {"func", "server", "client"}
 
 \* The owner closes the session after the script is used up: three quarters of an
-\* interval after the last scripted ping, or a quarter of an interval into the next one.
-UserTime == IF endMode \in {"idle", "drain"} THEN Len(script) * Interval + (3 * Interval) \div 4
-            ELSE (Len(script) + 1) * Interval + Interval \div 4
+\* interval after the tick of the last scripted ping, or a quarter of an interval into the
+\* next one; or a quarter of an interval after the first tick that finds the last ping held.
+UserTime == IF endMode \in {"idle", "drain"} THEN slots * Interval + (3 * Interval) \div 4
+            ELSE IF endMode = "held" THEN slots * Interval + Interval \div 4
+            ELSE (slots + 1) * Interval + Interval \div 4
 UserPending == userAt < 0 /\ closedAt < 0
 
 \* The two environment events lie strictly between the other events of an interval (tick 0,
@@ -193,37 +286,60 @@ ConnCtxDone == cc >= 0 /\ now >= CcTime
 
 OutcomeAt(i) == IF i <= Len(script) THEN script[i] ELSE "u"
 Delays(oc) == IF oc = "a" THEN AnswerDelays ELSE {0}
+NextAfter(t) == (t \div Interval + 1) * Interval      \* the first tick after t
 
 Init ==
-  /\ script \in Scripts /\ thr0 \in Thresholds /\ endMode \in {"idle", "inflight", "drain"}
+  /\ script \in Scripts /\ thr0 \in Thresholds /\ endMode \in {"idle", "inflight", "drain", "held"}
+  /\ EndsHeld(script) <=> endMode = "held"
   /\ drain \in (IF endMode = "drain" THEN DrainLens ELSE {0}) /\ drainedAt = -1
   /\ hs \in HsSlots /\ cc \in CtxSlots
   /\ (hs # 0 \/ cc # -1) => Len(script) <= EnvMaxLen
   /\ (hs # 0 /\ cc # -1) => EnvProduct
+  /\ est \in EstModes
+  /\ est # "init" => (Len(script) <= EstMaxLen /\ hs = 0)
+  \* the peer of a session without ping makes no request of its own either
+  /\ est = "modern" => endMode # "drain"
+  \* combinations of the environment dimensions with one another: way of establishing x Connect
+  \* context; held pings x way of establishing; held pings (short scripts) x handshake x context
+  /\ (est # "init" /\ cc # -1) => EnvProduct
+  /\ (est # "init" /\ NStalls(script) > 0) => (EnvProduct /\ cc = -1)
+  /\ (NStalls(script) > 0 /\ (hs # 0 \/ cc # -1)) => (EnvProduct /\ Len(script) <= 2)
   \* the request whose handler keeps the owner's Close waiting is only served after the handshake
   /\ endMode = "drain" => (hs >= 0 /\ hs <= Len(script))
-  /\ now = 0 /\ pc = "select" /\ tickerOn = TRUE /\ nextTick = Interval /\ ctxDone = FALSE
+  \* Connect starts the loop unless the session speaks a protocol version without ping
+  /\ now = 0 /\ pc = (IF HasPing THEN "select" ELSE "off") /\ tickerOn = HasPing /\ nextTick = Interval /\ ctxDone = FALSE
+  /\ pendTick = FALSE /\ slots = Len(script) + Shift(script)
   /\ cf = 0 /\ k = 0 /\ pend = [o |-> "a", d |-> 0] /\ resolveAt = 0 /\ hist = <<>>
   /\ closedAt = -1 /\ userAt = -1
 
-\* case <-ticker.C: send a ping with a deadline of half an interval
+\* case <-ticker.C: send a ping with a deadline of half an interval FROM NOW - which is the
+\* tick's own time when the loop was receiving, and later than that when the tick had to wait.
+\* A tick that is waiting when the session has meanwhile been closed is not served: "keep-
+\* alive ends silently when the session is closed" (~ctxDone: the cancelled context comes first).
 Tick ==
   /\ pc = "select" /\ tickerOn /\ ~ctxDone
-  /\ UserPending => nextTick < UserTime
-  /\ now' = nextTick /\ nextTick' = nextTick + Interval
-  /\ k' = k + 1
-  /\ \E d \in Delays(OutcomeAt(k + 1)) :
-       /\ pend' = [o |-> OutcomeAt(k + 1), d |-> d]
-       /\ resolveAt' = (IF OutcomeAt(k + 1) \in {"t", "u"} THEN nextTick + PingTimeout(Interval) ELSE nextTick + d)
-  /\ hist' = Append(hist, [at |-> nextTick, o |-> OutcomeAt(k + 1)])
+  /\ LET at == IF pendTick THEN now ELSE nextTick
+         oc == OutcomeAt(k + 1)
+     IN /\ UserPending => at < UserTime
+        /\ now' = at /\ nextTick' = (IF pendTick THEN nextTick ELSE nextTick + Interval)
+        /\ pendTick' = FALSE
+        /\ k' = k + 1
+        /\ \E d \in Delays(oc) :
+             /\ pend' = [o |-> ObsOutcome(oc), d |-> d]
+             /\ resolveAt' = (IF oc \in {"t", "u"} THEN at + PingTimeout(Interval)
+                              ELSE IF oc \in StallKinds THEN at + HoldOf(oc) ELSE at + d)
+        /\ hist' = Append(hist, [at |-> at, o |-> ObsOutcome(oc), h |-> HoldOf(oc)])
   /\ pc' = "ping"
-  /\ UNCHANGED <<hs, cc, script, thr0, endMode, drain, drainedAt, tickerOn, ctxDone, cf, closedAt, userAt>>
+  /\ UNCHANGED <<slots, hs, cc, est, script, thr0, endMode, drain, drainedAt, tickerOn, ctxDone, cf, closedAt, userAt>>
 
 \* session.Ping returns
 Resolve ==
   /\ pc = "ping"
   /\ UserPending => resolveAt < UserTime
   /\ now' = resolveAt
+  \* ticks that fired meanwhile: the first waits, the others are dropped; the ticker keeps its phase
+  /\ IF nextTick <= resolveAt THEN pendTick' = TRUE /\ nextTick' = NextAfter(resolveAt)
+     ELSE UNCHANGED <<pendTick, nextTick>>
   /\ IF pend.o = "a" THEN
         /\ cf' = 0 /\ pc' = "select"
         /\ UNCHANGED <<tickerOn, ctxDone, closedAt>>
@@ -237,15 +353,15 @@ Resolve ==
            ELSE \* session.Close(): idempotent; cancels the keep-alive context
               /\ pc' = "closed" /\ tickerOn' = FALSE /\ ctxDone' = TRUE
               /\ closedAt' = (IF userAt < 0 THEN resolveAt ELSE closedAt)
-  /\ UNCHANGED <<hs, cc, script, thr0, endMode, drain, drainedAt, nextTick, k, pend, resolveAt, hist, userAt>>
+  /\ UNCHANGED <<slots, hs, cc, est, script, thr0, endMode, drain, drainedAt, k, pend, resolveAt, hist, userAt>>
 
 \* the owner calls Close on the session: the keep-alive context is cancelled
 UserClose ==
-  /\ UserPending /\ pc \in {"select", "ping", "stopped"}
-  /\ (pc = "select" /\ tickerOn) => UserTime < nextTick
+  /\ UserPending /\ pc \in {"select", "ping", "stopped", "off"}
+  /\ (pc = "select" /\ tickerOn) => (UserTime < nextTick /\ ~pendTick)
   /\ pc = "ping" => UserTime < resolveAt
   /\ now' = UserTime /\ userAt' = UserTime /\ ctxDone' = TRUE
-  /\ UNCHANGED <<hs, cc, script, thr0, endMode, drain, drainedAt, pc, tickerOn, nextTick, cf, k, pend, resolveAt, hist, closedAt>>
+  /\ UNCHANGED <<slots, hs, cc, est, pendTick, script, thr0, endMode, drain, drainedAt, pc, tickerOn, nextTick, cf, k, pend, resolveAt, hist, closedAt>>
 
 \* the handler the owner's Close was waiting for returns: Close completes.  Time does not
 \* pass while the loop can leave (Exit is instantaneous), and earlier events come first.
@@ -256,13 +372,13 @@ DrainEnd ==
   /\ (pc = "select" /\ tickerOn) => DrainTime < nextTick
   /\ pc = "ping" => DrainTime < resolveAt
   /\ now' = DrainTime /\ drainedAt' = DrainTime
-  /\ UNCHANGED <<hs, cc, script, thr0, endMode, drain, pc, tickerOn, nextTick, ctxDone, cf, k, pend, resolveAt, hist, closedAt, userAt>>
+  /\ UNCHANGED <<slots, hs, cc, est, pendTick, script, thr0, endMode, drain, pc, tickerOn, nextTick, ctxDone, cf, k, pend, resolveAt, hist, closedAt, userAt>>
 
 \* case <-ctx.Done(): return (deferred ticker.Stop)
 Exit ==
   /\ pc = "select" /\ ctxDone
   /\ pc' = "done" /\ tickerOn' = FALSE
-  /\ UNCHANGED <<hs, cc, script, thr0, endMode, drain, drainedAt, now, nextTick, ctxDone, cf, k, pend, resolveAt, hist, closedAt, userAt>>
+  /\ UNCHANGED <<slots, hs, cc, est, pendTick, script, thr0, endMode, drain, drainedAt, now, nextTick, ctxDone, cf, k, pend, resolveAt, hist, closedAt, userAt>>
 
 Next == Tick \/ Resolve \/ UserClose \/ DrainEnd \/ Exit
 Spec == Init /\ [][Next]_vars /\ WF_vars(Next)
@@ -270,13 +386,13 @@ Spec == Init /\ [][Next]_vars /\ WF_vars(Next)
 -----------------------------------------------------------------------------
 (* Design check: the loop satisfies the property                              *)
 
-LoopGone == pc \in {"closed", "stopped", "done"}
+LoopGone == pc \in {"closed", "stopped", "done", "off"}
 Terminal == LoopGone /\ (closedAt >= 0 \/ (userAt >= 0 /\ (endMode = "drain" => drainedAt >= 0)))
 
 \* the observation a peer and the owner would make of the current state
 \* (start = 0: Connect returns at once; a late handshake does not delay it on the side that
 \* waits for the peer's initialize, and on the side that sends initialize hs is 0)
-ObsOf == [T |-> thr0, I |-> Interval, start |-> 0, pings |-> hist,
+ObsOf == [T |-> thr0, I |-> Interval, start |-> 0, pings |-> hist, pingable |-> HasPing,
           attempts |-> [i \in 1..Len(hist) |-> hist[i].at],
           closed |-> closedAt, userClose |-> userAt,
           kaEarly |-> (IF userAt >= 0 /\ now > userAt /\ ~LoopGone THEN 1 ELSE 0),
@@ -286,8 +402,8 @@ ObsOf == [T |-> thr0, I |-> Interval, start |-> 0, pings |-> hist,
 TrailingFails(h) == LET S == {n \in 0..Len(h) : Run(h, Len(h), n)} IN MaxOf(S)
 
 TypeOK ==
-  /\ pc \in {"select", "ping", "closed", "stopped", "done"}
-  /\ hs \in HsSlots /\ cc \in CtxSlots
+  /\ pc \in {"select", "ping", "closed", "stopped", "done", "off"}
+  /\ hs \in HsSlots /\ cc \in CtxSlots /\ est \in EstModes /\ pendTick \in BOOLEAN
   /\ cf \in 0..MaxLen + 1 /\ k \in 0..MaxLen + 1 /\ now >= 0
   /\ closedAt >= -1 /\ userAt >= -1
 
@@ -304,6 +420,10 @@ InvGoneWhenClosing == NoLeftovers([ObsOf EXCEPT !.kaAlive = 0, !.left = 0])
 \* further tick (it may still be inside the ping that was outstanding)
 InvGoneAtClose == closedAt >= 0 => LoopGone
 InvNoTickAfterUser == (userAt >= 0 /\ pc = "ping") => hist[Len(hist)].at < userAt
+\* a ping is never both resolved and ticked at the same instant, and a session without ping
+\* is never pinged
+InvGrid == /\ pc = "ping" => resolveAt # nextTick
+           /\ ~HasPing => (k = 0 /\ pc = "off")
 \* a stopped ticker never fires again; once cancelled or stopped no ping is sent
 NoPingAfterStop == [][(~tickerOn \/ ctxDone) => k' = k]_vars
 \* every run ends with the loop gone and the ticker stopped
